@@ -365,19 +365,21 @@ class Check:
         ev = {"property_id": self.pid, "tier": self.tier, "seed": seed(), "level": self.level,
               "coverage": self.cov, "assumptions": self.assumptions, "wall_s": round(time.time() - self.t0, 1),
               "violations": len(viol)}
-        os.makedirs(os.path.join(VERIF, "evidence"), exist_ok=True)
-        with open(os.path.join(VERIF, "evidence", self.pid + ".json"), "w") as f:
+        evdir = os.environ.get("VERIF_EVIDENCE_DIR", os.path.join(VERIF, "evidence"))     # (mutant evaluation writes elsewhere)
+        os.makedirs(evdir, exist_ok=True)
+        with open(os.path.join(evdir, self.pid + ".json"), "w") as f:
             json.dump(ev, f, indent=1)
         if viol:
             # group by what/dev to keep output readable; one replay file per distinct failure (max 20)
-            os.makedirs(os.path.join(VERIF, "replays", self.pid), exist_ok=True)
+            rpdir = os.environ.get("VERIF_REPLAY_DIR", os.path.join(VERIF, "replays"))
+            os.makedirs(os.path.join(rpdir, self.pid), exist_ok=True)
             seen = 0
             for f in viol:
                 if seen >= 20:
                     break
                 blob = json.dumps(f, sort_keys=True)
                 dg = hashlib.sha256(blob.encode()).hexdigest()[:16]
-                path = os.path.join(VERIF, "replays", self.pid, dg + ".json")
+                path = os.path.join(rpdir, self.pid, dg + ".json")
                 with open(path, "w") as fh:
                     json.dump(f, fh, indent=1)
                 print("VIOLATION property=%s replay=%s" % (self.pid, path))
